@@ -1,4 +1,5 @@
 """A5 — error and transfer discipline (DESIGN.md §4 A5): workspace-wide scanners."""
+import json
 import re
 
 from . import cfg as C
@@ -826,3 +827,108 @@ def _same_source(f, x, y):
 def R_operands(rv):
     from . import rules as _R
     return _R.rvalue_operands(rv)
+
+
+READ_EXACT_DELEGATE = re.compile(r"::read_exact$|::default_read_exact$")
+
+
+def read_exact_evidence(fb, f):
+    """Edges / blocks of a read_exact implementation that carry evidence that the WHOLE buffer was filled:
+    the Some edge of `..get(..buf.len())`, the `is_empty()` edge of a test on the (shrinking) buffer, the edge of a comparison with the
+    buffer's length that leaves the loop (or its equal edge), and delegations to a read_exact-family callee."""
+    from . import rules as _R
+    edges, blocks = set(), set()
+    loops = C.natural_loops(f)
+    for b, c in f.calls():
+        if READ_EXACT_DELEGATE.search(c.get("f") or ""):
+            blocks.add(b)
+    for b, blk in enumerate(f.blocks):
+        t = blk["t"]
+        if t[0] != "sw" or blk.get("cu"):
+            continue
+        cond = C.switch_condition(f, b)
+        if not cond:
+            continue
+        vals = dict((v, tg) for v, tg in t[2])
+        if cond[0] == "discr":
+            # Option returned by a length-bounded view of a block: get(..buf.len())
+            pl = cond[1]
+            for d in C.defs(f).get(pl[0], []):
+                if d[0] == "call" and re.search(r"slice::<impl \[T\]>::get$|slice::<impl \[T\]>::split_at_checked$|slice::<impl \[T\]>::first_chunk$",
+                                                d[2].get("f") or ""):
+                    some = vals.get(1, t[3] if 1 not in vals else None)
+                    if some is not None:
+                        edges.add((b, some))
+        elif cond[0] == "call":
+            fk = cond[1].get("f") or ""
+            if re.search(r"slice::<impl \[T\]>::is_empty$", fk) and _of_buffer(f, cond[1]["args"][0]):
+                # nonzero = empty
+                nz = t[3] if 0 in vals else None
+                if nz is not None:
+                    edges.add((b, nz))
+        elif cond[0] == "not":
+            l = C.op_local(cond[1])
+            d = C.single_def(f, l) if l is not None else None
+            if d is not None and d[0] == "call" and re.search(r"slice::<impl \[T\]>::is_empty$", d[2].get("f") or "") and \
+                    _of_buffer(f, d[2]["args"][0]):
+                # switch on !is_empty: zero = empty
+                if 0 in vals:
+                    edges.add((b, vals[0]))
+        elif cond[0] == "cmp":
+            def from_len(o):
+                l = C.op_local(o)
+                if l is None:
+                    return False
+                for d in C.defs(f).get(l, []):
+                    if d[0] == "=" and d[3][0] in ("len", "ptrmeta", "un") and "PtrMetadata" in json.dumps(d[3]):
+                        return True
+                    if d[0] == "=" and d[3][0] == "len":
+                        return True
+                    if d[0] == "call" and re.search(r"slice::<impl \[T\]>::len$", d[2].get("f") or ""):
+                        return True
+                return False
+            if (from_len(cond[2]) and _of_buffer(f, cond[2])) or (from_len(cond[3]) and _of_buffer(f, cond[3])):
+                mine = [body for h, body in loops if b in body]
+                body = set().union(*mine) if mine else set()
+                if cond[1] == "Eq":
+                    if 0 in vals:
+                        edges.add((b, t[3]))
+                elif cond[1] == "Ne":
+                    if 0 in vals:
+                        edges.add((b, vals[0]))
+                else:
+                    for tg in list(vals.values()) + [t[3]]:
+                        if body and tg not in body:
+                            edges.add((b, tg))
+    return edges, blocks
+
+
+def _of_buffer(f, op):
+    """does the operand derive from the destination buffer (the second parameter of read_exact / default_read_exact)?"""
+    from . import rules as _R
+    return C.op_local(op) == 2 or _R.derives_from_local(f, op, 2, through_calls=True)
+
+
+def read_exact_contract_rule(ctx, rule, floor):
+    """Every success exit of a read_exact implementation is reached only through evidence that the whole buffer was filled."""
+    fb = ctx.fb
+    n = 0
+    for k, f in sorted(fb.fns.items()):
+        if not f.blocks or not in_scope(f):
+            continue
+        if not ((f.trait_item or "").endswith("io::Read::read_exact") or k.endswith("::default_read_exact")):
+            continue
+        n += 1
+        ctx.saw_fn(f)
+        edges, blocks = read_exact_evidence(fb, f)
+        reach = C.reachable(f, 0, removed=blocks, removed_edges=edges)
+        bad = [e for e in C.success_exit_blocks(f) if e in reach]
+        if not bad:
+            ctx.ok(rule, k, "every way to Ok(()) passes a whole-buffer test or a read_exact delegation (%d evidence edge(s), %d delegation(s))" % (
+                len(edges), len(blocks)), f.loc())
+        else:
+            ctx.violation(rule, "%s/ok-without-full-buffer/%s" % (rule, f.root),
+                          "%s can return Ok(()) on a path that passes no test that the whole buffer was filled (no `get(..buf.len())` hit, no "
+                          "`is_empty()` / length comparison of the remaining buffer, no read_exact delegation): at the end of a cut file a "
+                          "partly filled buffer is reported as a complete read and the caller decodes stale or zero bytes" % f.root, f.loc(bad[0]))
+    ctx.floor(rule, "read_exact implementations", n, floor)
